@@ -464,6 +464,16 @@ func c11ExecRaw(o *c11Objs, op c11Op) (res string, handed []c11Handed) {
 				_, _ = d.Len()
 			}
 			err := s.Validate(d)
+			if op.Pooled {
+				// Validate reads the whole document and rewinds it before and after (like
+				// Check and Len): a read of the pooled object afterwards starts at the beginning
+				// and must deliver what a fresh Document delivers. (A schema that does not
+				// compile answers before it touches the document: the cursor stays unjudged.)
+				var f interface{ Filename() string }
+				if err == nil || (errors.As(err, &f) && f.Filename() == "doc") {
+					o.used[op.Doc] = false
+				}
+			}
 			handErr(err)
 			return c11Err(err), handed
 		}
